@@ -677,8 +677,12 @@ def run(ctx):
     des = cstr.methods.get("deserialize")
     ser = cstr.methods.get("serialize")
     ctx.require(des is not None and ser is not None, "se.CStr.serialize/deserialize vanished")
-    t_dec = [c for c in calls(des.node) if isinstance(c.func, ast.Attribute) and c.func.attr == "decode"]
-    t_enc = [c for c in calls(ser.node) if isinstance(c.func, ast.Attribute) and c.func.attr == "encode"]
+    from .common import class_methods_reachable as _cmr
+    # the text codec call may sit in a helper of the class or of a shared base (TextSpecBase._decode_text)
+    t_dec = [c for g in _cmr(repo, des, depth=2) for c in calls(g.node) if isinstance(c.func, ast.Attribute) and c.func.attr == "decode"
+             and not (isinstance(c.func.value, ast.Name) and c.func.value.id in ("self", "cls"))]
+    t_enc = [c for g in _cmr(repo, ser, depth=2) for c in calls(g.node) if isinstance(c.func, ast.Attribute) and c.func.attr == "encode"
+             and not (isinstance(c.func.value, ast.Name) and c.func.value.id in ("self", "cls"))]
     ctx.ob("C13.R2", "CStr decodes/encodes once each", len(t_dec) == 1 and len(t_enc) == 1, des.where)
 
     def strictness(c):
@@ -717,19 +721,14 @@ def run(ctx):
         aci = repo.resolve_class(cname, repo.module(TMPL))
         choices = None
         selector = None
-        if aci is not None and "__init__" in aci.methods:
-            for c in calls(aci.methods["__init__"].node):
-                if isinstance(c.func, ast.Attribute) and c.func.attr == "__init__":
-                    for a in c.args:
-                        if isinstance(a, ast.Dict):
-                            choices = a
-                        if isinstance(a, ast.Lambda) and a.args.args:
-                            # the field of the context the choice is made on: every use of the parameter reads that one field
-                            pn = a.args.args[0].arg
-                            attrs = {x.attr for x in ast.walk(a.body) if isinstance(x, ast.Attribute)
-                                     and isinstance(x.value, ast.Name) and x.value.id == pn}
-                            if len(attrs) == 1:
-                                selector = next(iter(attrs))
+        parts = _ctx_adapter_parts(repo, aci) if aci is not None else None
+        if parts is not None:
+            key_body, pn, choices = parts
+            # the field of the context the choice is made on: every use of the parameter reads that one field
+            attrs = {x.attr for x in ast.walk(key_body) if isinstance(x, ast.Attribute)
+                     and isinstance(x.value, ast.Name) and x.value.id == pn}
+            if len(attrs) == 1:
+                selector = next(iter(attrs))
         if choices is None or selector is None:
             raise AnalysisError(f"C13.R2: template adapter {cname} for {tf['key']} has no analysable choice table")
         # the fast path must test exactly `<selector value> == <Enum>.<K>`
@@ -1110,6 +1109,43 @@ def _ancestors(n):
         p = getattr(p, "_parent", None)
 
 
+def _ctx_adapter_parts(repo, aci):
+    """(key expression, name of its context parameter, option table dict) of a ContextAdapter subclass: the key function
+    may be a lambda or a module-level function with a single `return`, the table a dict literal or a local bound to one"""
+    init = aci.methods.get("__init__")
+    if init is None:
+        return None
+    for c in calls(init.node):
+        if not (isinstance(c.func, ast.Attribute) and c.func.attr == "__init__"):
+            continue
+        key_body = pn = table = None
+        for a in c.args:
+            if isinstance(a, ast.Lambda) and a.args.args:
+                key_body, pn = a.body, a.args.args[0].arg
+            elif isinstance(a, ast.Name):
+                fns = [g for g in repo.funcs.get(a.id, []) if g.module is aci.module and g.cls is None and g.parent_fn is None]
+                if len(fns) == 1 and fns[0].node.args.args:
+                    body = [st for st in fns[0].node.body if not (isinstance(st, ast.Expr) and isinstance(st.value, ast.Constant))]
+                    if len(body) == 1 and isinstance(body[0], ast.Return) and body[0].value is not None:
+                        key_body, pn = body[0].value, fns[0].node.args.args[0].arg
+                        continue
+                    # the normal form turns `return a if c else b` into if c: return a / else: return b
+                    if len(body) == 1 and isinstance(body[0], ast.If) and len(body[0].body) == 1 and len(body[0].orelse) == 1 and \
+                            all(isinstance(x, ast.Return) and x.value is not None for x in (body[0].body[0], body[0].orelse[0])):
+                        key_body = ast.IfExp(test=body[0].test, body=body[0].body[0].value, orelse=body[0].orelse[0].value)
+                        pn = fns[0].node.args.args[0].arg
+                        continue
+                from ..core import stores as _st
+                for st in _st(init.node, into_defs=False):
+                    if st.path == a.id and isinstance(st.value, ast.Dict):
+                        table = st.value
+            elif isinstance(a, ast.Dict):
+                table = a
+        if key_body is not None and table is not None:
+            return key_body, pn, table
+    return None
+
+
 def r7(ctx):
     """Display mode (pod=True) decodes se.IntEnum fields to member NAMES.  A ContextAdapter on the template's path whose
     option table is keyed by the members of such an enum must turn a name back into the member before the lookup, or the
@@ -1123,22 +1159,19 @@ def r7(ctx):
         for ci in lst:
             if ci.module is not tmod or not any(c.name == "ContextAdapter" for c in repo.mro(ci)):
                 continue
-            init = ci.methods.get("__init__")
-            if init is None:
+            parts = _ctx_adapter_parts(repo, ci)
+            if parts is None:
                 continue
-            for c in calls(init.node):
-                if not (isinstance(c.func, ast.Attribute) and c.func.attr == "__init__"):
-                    continue
-                lam = next((a for a in c.args if isinstance(a, ast.Lambda)), None)
-                table = next((a for a in c.args if isinstance(a, ast.Dict)), None)
-                if lam is None or table is None:
-                    continue
+            key_body, _pn, table = parts
+            init = ci.methods["__init__"]
+            lam = key_body
+            for _once in (0,):
                 enums = {ap(k.value) for k in table.keys if isinstance(k, ast.Attribute) and ap(k.value)}
                 enums = {e for e in enums if (lambda e_: (lambda c_: c_ is not None and is_enum(repo, c_))(repo.resolve_class(e_, tmod)))(e)}
                 if not enums:
                     continue
                 n += 1
-                names_handled = any(isinstance(x, ast.Subscript) and ap(x.value) in enums for x in ast.walk(lam.body))
+                names_handled = any(isinstance(x, ast.Subscript) and ap(x.value) in enums for x in ast.walk(lam))
                 ctx.ob("C13.R7", f"{ci.name}: key function maps a member name to the member before the lookup", names_handled,
                        ctx.w(init, lam), f"the option table is keyed by {sorted(enums)} members, but in plain-data mode the context holds the "
                        f"member's NAME: `{norm(lam)[:80]}` returns it as it is, no key matches and the default codec is used")
